@@ -188,10 +188,14 @@ def run_ops_impl(comp, x, ops):
                 continue
             if k == "c":
                 n = int(body)
-                arr = np.asarray(x[off : off + n], dtype=DT.get(dt, np.int64))
+                arr = np.array(x[off : off + n], dtype=DT.get(dt, np.int64))  # a private copy: the caller's block
                 off += n
                 arr.setflags(write=False)
                 r = comp.compute_chunk(arr)
+                # the block is reused by its owner as soon as the call returns; a computer that kept a view of it
+                # instead of a copy would compute its next frames from this garbage
+                arr.setflags(write=True)
+                arr[...] = 77
             elif k == "z":
                 r = comp.finalize()
                 off = 0
@@ -655,6 +659,11 @@ def library_case_run(case):
     flags = {k: case[k] for k in ("include_energy", "use_log", "use_power", "pad_to_nearest_power_of_two")}
     comp = compute.SIFrameComputer(bank, frame_shift_ms=case["shift_ms"], frame_style=case["style"],
                                    window_function=window_of(case["window"]), **flags)
+    if case.get("log_floor_after_ctor") is not None:
+        # the recorded run changed the configuration knob after building the computer (the caller of this function,
+        # `replay`, evaluates the oracle while the value is still in force and the process then ends)
+        from pydrobert.speech import config
+        config.LOG_FLOOR_VALUE = case["log_floor_after_ctor"]
     x = np.random.RandomState(case["sig_seed"]).randn(case["N"]).astype(DT[case["dtype"]])
     x.setflags(write=False)
     full = comp.compute_full(x)
@@ -667,6 +676,16 @@ def library_case_run(case):
 
 
 def library_oracle(ctx, n):
+    from pydrobert.speech import config
+
+    floor0 = config.LOG_FLOOR_VALUE
+    try:
+        return library_oracle_(ctx, n, config, floor0)
+    finally:
+        config.LOG_FLOOR_VALUE = floor0
+
+
+def library_oracle_(ctx, n, config, floor0):
     from pydrobert.speech import compute, filters
 
     r = ctx.rng
@@ -675,6 +694,7 @@ def library_oracle(ctx, n):
     tries = 0
     while done < n and tries < 6 * n and not ctx.out_of_time():
         tries += 1
+        config.LOG_FLOOR_VALUE = floor0
         try:
             kind, scale, nf, lo, hi, analytic, bank = make_bank(r, rate)
         except Exception as e:
@@ -698,6 +718,12 @@ def library_oracle(ctx, n):
         if S < 1 or not in_precondition(bank.supports, S, style == "centered"):
             ctx.count("out_of_scope")
             continue
+        if flags["use_log"] and done % 3 == 1:
+            # LOG_FLOOR_VALUE is a configuration knob read when the log is taken: raise it AFTER the computer was built
+            # (restored at the top of the next iteration / on exit); the oracle reads the live value as well
+            config.LOG_FLOOR_VALUE = 1e-2
+            case["log_floor_after_ctor"] = 1e-2
+            ctx.count("log_floor_changed_after_ctor")
         L = comp.frame_length
         if L > 2500:
             ctx.count("skipped_large")
